@@ -43,6 +43,12 @@ def tree_T4():
     return "T4", [E(b"m", "file", content=b"mm"), E(b"k", "link", target=b"m"), E(b"z", "link", target=b"m"), E(b"n", "file", content=b"n")], {"root": 4}
 
 
+def tree_T5():
+    # names whose first difference involves bytes >= 0x80 (UTF-8 and raw high bytes), multiply-linked
+    return "T5", [E(b"alpha", "file", content=b"A"), E(b"\xc3\xa4lpha", "link", target=b"alpha"), E(b"\xc3\xb6mega", "link", target=b"alpha"),
+                  E(b"\xff", "file", content=b"ff"), E(b"\x80x", "link", target=b"\xff"), E(b"zz", "file", content=b"z")], {"root": 6}
+
+
 def option_sets(tier):
     S = [("default", [], None), ("-k", ["-k"], None), ("--no-hard-links", ["-H"], None)]
     if tier == "thorough":
@@ -77,7 +83,7 @@ def main():
     with build.Scratch("C11") as sd:
         tools = build.build_tools(build.variant("envwrap"), os.path.join(sd, "bin"), tools=["gensquashfs"])
         T.update(tools)
-        trees = [tree_T1(), tree_T4(), tree_T2()] + ([tree_T3()] if not cr.quick else [])
+        trees = [tree_T1(), tree_T4(), tree_T5(), tree_T2()] + ([tree_T3()] if not cr.quick else [])
         if cr.replay:
             case = json.load(open(os.path.join(cr.replay, "case.json")))
             tr = {t[0]: t for t in trees + [tree_T3()]}[case["tree"]]
